@@ -197,7 +197,7 @@ def parseSlice (pattern : Str) : Option Op :=
         match (if s1.isEmpty then some none else (pyInt s1).map some) with
         | none => none
         | some stop =>
-          match (if s2.isEmpty then some 1 else (pyInt s2).map (fun v => if v == 0 then 1 else v)) with
+          match (if s2.isEmpty then some 1 else pyInt s2) with   -- `int(segs[2]) if segs[2] else 1`: an explicit 0 stays 0
           | none => none
           | some stride =>
             some (.slice (if s0.isEmpty then none else some start) stop (some stride))
